@@ -621,4 +621,6 @@ pub fn run(ctx: &Ctx) {
             }
         }
     });
+    // Miri lane (thorough): the slice-swapping in-place fold on every (n,k) with n <= 6
+    miri_lane(ctx, "c01", 1);
 }
